@@ -7,6 +7,8 @@
 //   {"op":"load","lines":[...text lines...]}      load a savefile (header + given lines) into a FRESH instance, report its state
 //   {"op":"loadraw","text":"..."}                 load arbitrary text into a fresh instance (header / garbage rejection)
 //   {"op":"floatseq","addr":"/pg","ins":[bits...]} float bit patterns sent one after the other to a float port (positive finite values, the last one 1.0)
+//   {"op":"savehook","discard":[addr..],"abort":addr|"","ren_from":addr|"","ren_to":addr|"","inc_addr":addr|"","inc_by":n}   save, then load through a savefile_dispatcher_t
+//                                                 whose on_dispatch discards / aborts on / renames / changes the argument of the named lines
 //   {"op":"serialize"}                            subtree_serialize into a large buffer (image logged) and into buffers of every capacity around 0..20 and
 //                                                 around the needed size (flush against a poisoned zone); subtree_deserialize of the image into a FRESH instance
 // After every operation: the reply / broadcast / undo events it produced (decoded) and the complete state.
@@ -96,6 +98,14 @@ static void saved_lines(JW &w, const std::string &body) {
 static std::string header() { char rv[12], av[12]; rtosc_version cur = rtosc_current_version(); rtosc_version_print_to_12byte_str(&cur, rv); rtosc_version_print_to_12byte_str(&APPVER, av);
     return std::string("% RT OSC v") + rv + " savefile\n% " + APPNAME + " v" + av + "\n"; }
 
+// a dispatcher with the hooks savefile.h documents: discard a message, abort the loading, rename a port, change an argument
+struct HookDisp : rtosc::savefile_dispatcher_t { std::set<std::string> discard_; std::string abort_, ren_from, ren_to, inc_addr; int inc_by = 0; int seen = 0;
+    int on_dispatch(size_t portname_max, char *portname, size_t, size_t nargs, rtosc_arg_val_t *args) override { ++seen;
+        if (!abort_.empty() && abort_ == portname) return abort;
+        if (discard_.count(portname)) return discard;
+        if (!inc_addr.empty() && inc_addr == portname && nargs == 1 && args[0].type == 'i') args[0].val.i += inc_by;
+        if (!ren_from.empty() && ren_from == portname && ren_to.size() < portname_max) strcpy(portname, ren_to.c_str());
+        return (int)nargs; } };
 static void run_script(const J &script, FILE *out) {
     JW w; w.obj().key("ev").arr();
     int sig = vg_run(30, [&] {
@@ -160,6 +170,14 @@ static void run_script(const J &script, FILE *out) {
                     for (auto &e : d.evs) if (e.kind == "undo" && e.args.size() == 3 && e.args[0].b == addr) w.obj().knum("old", (long)e.args[1].bits).knum("new", (long)e.args[2].bits).end_obj(); else if (e.kind == "undo") w.obj().knum("old", -1).knum("new", -1).end_obj();
                     w.end_arr().key("bc").arr(); for (auto &e : d.evs) if (e.kind == "broadcast") w.num(e.addr == addr && e.args.size() == 1 ? (long)e.args[0].bits : -1L); w.end_arr().end_obj(); }
                 w.end_arr(); }
+            else if (k == "savehook") { // save, then load the file through a dispatcher with hooks into a fresh instance
+                std::set<std::string> written; std::string f = save_to_file(App::ports, &app, APPNAME, APPVER, written, {}); std::string h = header(); bool hdr = f.compare(0, h.size(), h) == 0; std::string body = hdr ? f.substr(h.size()) : f;
+                w.kbool("header_ok", hdr).key("lines"); saved_lines(w, body);
+                HookDisp hd; for (auto &d : op["discard"].a) hd.discard_.insert(d.s); hd.abort_ = op["abort"].s; hd.ren_from = op["ren_from"].s; hd.ren_to = op["ren_to"].s; hd.inc_addr = op["inc_addr"].s; hd.inc_by = (int)op["inc_by"].num();
+                w.key("hook").obj().key("discard").arr(); for (auto &d : op["discard"].a) w.str(d.s); w.end_arr().kstr("abort", hd.abort_).kstr("ren_from", hd.ren_from).kstr("ren_to", hd.ren_to).kstr("inc_addr", hd.inc_addr).knum("inc_by", hd.inc_by).end_obj();
+                App fresh; FlushBuf tb(f.size() + 1); memcpy(tb.p, f.c_str(), f.size() + 1);
+                int rv = load_from_file((const char *)tb.p, App::ports, &fresh, APPNAME, APPVER, &hd);
+                w.knum("ret", rv).knum("hook_calls", hd.seen).key("loaded"); state(w, fresh); }
             else if (k == "load" || k == "loadraw") { std::string text;
                 if (k == "load") { text = header(); for (auto &l : op["lines"].a) text += l.s + "\n"; w.key("lines").arr(); for (auto &l : op["lines"].a) w.str(l.s); w.end_arr(); }
                 else { text = op["text"].s; w.kstr("text", text); }
